@@ -3,7 +3,8 @@ import ipamcheck, plugincheck
 
 THEOREMS = ["agree_invariant", "agree_step", "agree_quiescent", "restart_exact"]
 REFUTED = ["agree_refuted_reload_window_old", "agree_refuted_stale_event_old"]
-PLUGIN_THEOREMS = []
+PLUGIN_THEOREMS = ["crash_in_bind_restart_safe", "crash_elsewhere_restart_safe", "after_restart_no_double_owner",
+                   "after_restart_pods_keep_ips", "after_restart_resync_no_leak", "restart_world_fresh_informer"]
 
 KNOWN_FINDINGS = [
     {"id": "F3", "status": "fixed", "commit": "cdfc2c2", "tag": "c05-reload-window",
@@ -21,8 +22,15 @@ MANIFEST = {
             "restarted process rebuilds exactly its tables). Tied to the code by replaying scenario + random histories and, for a "
             "subset, every fault index of every operation on the real crdIpam and on the model step by step; the invariant is also "
             "evaluated as a monitor on the implementation's dumps. The crash-between-two-API-calls half of the property is covered at "
-            "this layer through restart_exact (a crash loses memory only; the rebuilt tables are a function of the store) and, for "
-            "multi-call plugin operations, by the plugin-level check when present.",
+            "this layer through restart_exact (a crash loses memory only; the rebuilt tables are a function of the store). Plugin "
+            "level (Model/PluginCrash.v, Proofs/PluginCrashP.v): because the store is written before memory, a section that dies "
+            "before its k-th API call leaves a restarted process exactly the state of that call failing cleanly "
+            "(crash_elsewhere_restart_safe, for every section, every fault argument) - except inside Bind's multi-IP allocation, "
+            "where a failed creation rolls back and a dead process does not: crash_in_bind_restart_safe covers that state for every "
+            "k. In both cases the restarted world satisfies the world invariant WInv, hence after_restart_no_double_owner, "
+            "after_restart_pods_keep_ips and - with C03's resync pass theorem - after_restart_resync_no_leak. Tied to the code by "
+            "crash scenarios: the store fake lets every call from the k-th on fail (rollbacks included), the plugin object is "
+            "abandoned and a new one started over the same API server, for every k of the multi-IP allocation.",
     "note": "trusted: Coq kernel (no axioms); fake API server semantics; ConfigurePool and AllocateSpecificIP modelled as atomic "
             "steps (after fix cdfc2c2 ConfigurePool holds the lock across its list; AllocateSpecificIP's unlocked Create is protected "
             "by the name conflict); administrator does not touch a reservation again before its event is delivered",
